@@ -293,6 +293,13 @@ def do_op(o):
                             else code_of(v)])
             msv = [[k, None if ds.msv[k].value() == -1 else 'LOADED']
                    for k in ds.msv]
+            # the algorithm that loaded the values then works on them in place
+            # (what it was handed is its own copy: a later load must not see it)
+            for k in sv:
+                v = sv[k]
+                if getattr(v, 'content', None) != 'UNTOUCHED':
+                    v.content = ['EDITED-IN-PLACE', getattr(v, 'content', None)]
+                    v._version_seal_ = None
             return {'r': got, 'msv': msv,
                     'msv_ver': [list(ds.msv._get_ver()),
                                 [[k, list(ds.msv[k]._get_ver())] for k in ds.msv]]}
